@@ -23,7 +23,16 @@ def gen_cases(rnd, n):
         bcols = rnd.randint(1, 3)
         A = qgen.gen_table(rnd, nrows=rnd.randint(0, 5), ncols=acols, pool=keyvals, ragged=0.1, none_p=0.05, full_cols=0)
         B = qgen.gen_table(rnd, nrows=rnd.randint(0, 5), ncols=bcols, pool=keyvals + ['p', 'q'], ragged=0.15, none_p=0.05, full_cols=0)
+        hdr = None
+        if rnd.random() < 0.15:
+            # tables with headers (rectangular, as the list front-end demands); the join table is often EMPTY: the LEFT JOIN
+            # null record must still have one None per join column
+            A = qgen.gen_table(rnd, nrows=rnd.randint(0, 4), ncols=acols, pool=keyvals, ragged=0.0, none_p=0.05, full_cols=acols)
+            B = qgen.gen_table(rnd, nrows=rnd.choice([0, 0, 1, 3]), ncols=bcols, pool=keyvals + ['p', 'q'], ragged=0.0, none_p=0.05, full_cols=bcols)
+            hdr = (['h%d' % (i + 1) for i in range(acols)], ['k%d' % (i + 1) for i in range(bcols)])
         q = {'join': qgen.gen_join(rnd, acols, bcols)}
+        if hdr is not None and rnd.random() < 0.7:
+            q['join']['kind'] = 'left'
         shape = rnd.choice(['select', 'select', 'order', 'distinct', 'agg', 'update', 'top'])
         if shape == 'update':
             q['update'] = True
@@ -49,7 +58,10 @@ def gen_cases(rnd, n):
             elif shape == 'agg':
                 q['items'] = [{'e': ['mod', ['nr'], ['lit', qgen.num(2)]]}, {'agg': 'count', 'e': ['lit', qgen.num(1)]}, {'agg': 'array_agg', 'e': ['b', 0]}]
                 q['group'] = [['mod', ['nr'], ['lit', qgen.num(2)]]]
-        cases.append({'q': q, 'A': A, 'B': B})
+        c = {'q': q, 'A': A, 'B': B}
+        if hdr is not None:
+            c['header_a'], c['header_b'] = hdr
+        cases.append(c)
     return cases
 
 
@@ -65,6 +77,7 @@ def run(res, tier, seed):
     for c in cases[:2] + cases[-2:]:
         res.sample({'query': qgen.render_query(c['q'], 'py'), 'A': c['A'], 'B': c['B']})
     engine_corr.run_cases(res, 'C04', cases, 'py', rnd=random.Random(seed + 8))
+    engine_corr.js_leg(res, 'C04', cases, rnd=random.Random(seed + 108))
 
 
 def replay(res, path):
